@@ -55,6 +55,10 @@ Part B — the parameter handling.
   `conflicts_resolved`, `moltype_rule`: repeated / conflicting items and molecule words, exactly;
 * `outputs`: `-o` vs `--output-dir` vs the current directory; `fromfile_*`: `sketch fromfile` builds
   exactly the requested signatures that are neither already done nor impossible, each once;
+* `compute_excl`, `compute_sketch_set`, `compute_eq_sketch`, `compute_exits`: the deprecated
+  `sourmash compute` maps its options to ONE `ComputeParameters` (never num and scaled together),
+  builds one sketch per (k, molecule type switched on), the same sketches as the equivalent
+  `sketch -p ...` invocation whenever one exists, and refuses in the listed order;
 * the literal tables re-extracted by the translator are what the model assumes
   (`defaults_wellformed`, `template_order`, `cp_defaults_agree`).
 -/
@@ -66,6 +70,7 @@ import SmVerif.Lemmas.SketchFeed
 import SmVerif.Lemmas.BTreeCache
 import SmVerif.Lemmas.SketchNames
 import SmVerif.Lemmas.SketchFromfile
+import SmVerif.Lemmas.SketchCompute
 import SmVerif.Props.C01
 
 namespace Sm.C14
@@ -577,14 +582,60 @@ theorem outputs (mode : NameMode) (files : List SeqFile) :
            ∀ ex, planOutputs (.merge nm) (.dir ex) files = .error .exit) ∧
     (∀ nff, planOutputs (.perFile nff) .cwd files =
       .ok ((plan (.perFile nff) files).map (fun u => (basename u.filename ++ ".sig".toList, u)))) ∧
-    (∀ nff, plan (.perFile nff) files ≠ [] → planOutputs (.perFile nff) (.dir false) files = .error .noDir) := by
+    (∀ nff, Gen.sketchCreatesOutdir = false → plan (.perFile nff) files ≠ [] →
+      planOutputs (.perFile nff) (.dir false) files = .error .noDir) := by
   refine ⟨?_, fun nm => ⟨rfl, fun ex => rfl⟩, fun nff => rfl, ?_⟩
   · cases mode <;> rfl
-  · intro nff h
+  · intro nff hg h
     unfold planOutputs
     simp only []
-    rw [if_neg (by simpa using h)]
+    rw [if_neg (by simpa using h), hg]
     rfl
+
+/-! ### the deprecated `sourmash compute` (`Model/SketchCompute.lean`) -/
+
+/-- whatever its options, `compute` never builds a sketch that is both num and scaled: giving
+`--scaled` resets the default `num_hashes = 500` to 0.  (The raw `ComputeParameters(scaled=S)` API,
+whose `num_hashes` also defaults to 500, does not — that, not `compute`, is where D14e is reachable.) -/
+theorem compute_excl (a : ComputeArgs) (c : CP) (h : computeParams a = .ok c) : c.scaled = 0 ∨ c.num = 0 :=
+  Sketch.computeParams_excl h
+
+/-- one signature per unit, holding one sketch per (k, molecule type) with `compute`'s parameters -/
+theorem compute_sketch_set (a : ComputeArgs) (c : CP) (_h : computeParams a = .ok c) (b : BT) :
+    (b ∈ buildTemplate c ↔ ∃ k ∈ c.ksizes, ∃ m ∈ molsOf c, b = template c k m) ∧
+    (buildTemplate c).length = c.ksizes.length * (molsOf c).length :=
+  ⟨Sketch.mem_buildTemplate c b, Sketch.buildTemplate_length c⟩
+
+/-- **`compute` builds the same sketches as the equivalent `sketch` invocation**: for every
+molecule type `m` that `compute` was asked for, `sketch -p <m>,k=K..,num=N|scaled=S,abund|noabund,seed=..`
+(K = k/3 for the protein alphabets) yields one signature holding exactly `compute`'s sketches of
+type `m`, in the order of the k sizes — same parameters, hence (by `sketch_eq_direct_sequences`,
+applied to either) the same hashes, abundances and md5 on every input.  `Equivalent` lists what the
+invocation needs: a k size, protein k sizes divisible by 3 (`compute` enforces it), numbers that
+fit, a float-representable scaled, and a size.  Where they DIFFER: `compute` puts all molecule types
+and k sizes of a unit into ONE signature (and one `-k` list serves every molecule type), `sketch`
+makes one signature per `-p` group; `compute -n 0` without `--scaled` is accepted (an always-empty
+sketch, what C14.1 was for `sketch`), and only `compute` acts on `--randomize`. -/
+theorem compute_eq_sketch (c : CP) (m : Mol) (h : Equivalent c m) :
+    factory [renderItems (equivSummary c m).canon] none false =
+      .ok [c.ksizes.map (fun k => template c k m)] :=
+  Sketch.factory_equiv h
+
+/-- the refusals of `compute`, in the order of the source -/
+theorem compute_exits :
+    computeParams { licenseCC0 := false } = .error .license ∧
+    computeParams { scaled := .below1 } = .error .scaledBelow1 ∧
+    computeParams { scaled := .fraction } = .error .scaledFraction ∧
+    computeParams { protein := true, ksizes := [21, 31] } = .error .proteinKsize ∧
+    computeParams { dna := false } = .error .nothing ∧
+    computeParams { merge := true, hasOutput := false } = .error .mergeNeedsOutput ∧
+    computeParams { hasOutput := true, hasOutputDir := true } = .error .outputAndDir ∧
+    (computeParams { inputIsProtein := true, ksizes := [21] }).toOption.map (fun c => (c.dna, c.protein)) = some (false, true) ∧
+    computeParams { inputIsProtein := true } = .error .proteinKsize ∧
+    (computeParams { scaled := .int 1000 }).toOption.map (fun c => (c.num, c.scaled)) = some (0, 1000) ∧
+    (computeParams {}).toOption.map (fun c => (c.ksizes, c.num, c.scaled, c.seed, c.track)) =
+      some ([21, 31, 51], 500, 0, 42, false) := by
+  decide +kernel
 
 /-! ### `sketch fromfile` (`Model/SketchFromfile.lean`) -/
 
